@@ -208,8 +208,9 @@ def run(tape, prop, tier):
         params = WARCRecorderParams(compress=compress, temp_dir=tmpdir, log=False, digests=digests, cdx=False,
                                     software_string='verif-sim/1', max_size=max_size)
         # the archive name is the user's choice (--warc-file): characters that mean something to glob() are legal in it
-        stem = tape.choice(('a', 'a', 'site[2024]', 'crawl*x', 'q?-[ab]'), 'warc.stem')
-        if stem != 'a':
+        # (an empty base name - '--warc-file dir/' - gives 'dir/.warc.gz': a name glob's '*' does not match)
+        stem = tape.choice(('a', 'a', 'site[2024]', 'crawl*x', 'q?-[ab]', '', '.hidden'), 'warc.stem')
+        if stem not in ('a', '', '.hidden'):
             r.probes['archive_name_with_glob_characters'] += 1
         prefix = os.path.join(sandbox, stem)
         recorder = WARCRecorder(prefix, params=params)       # writes the warcinfo record
